@@ -8,7 +8,8 @@
         its complete ABSOLUTE PATH; an argument that does not exist aborts the whole expansion with an error.
      The flag is split at commas; its default "" is one expression that matches only the empty string, i.e. nothing.
 
-   The tree is a subset of six candidate files below a root R (the name "c" is a file in R and a directory in R/a, so that
+   The tree is a subset of six candidate files below a root R (on disk a directory named RVS, so that the one expression that
+   speaks about the path above a file cannot be matched by the scratch location; the name "c" is a file in R and a directory in R/a, so that
    "matches the base name of directories, the whole path of files" shows); arguments are given relative to R.
    TLC enumerates trees x argument lists x expression sets and prints the expected list; the Go driver materialises each case
    and calls the real expandFiles.  C19's "for each file" rests on this list. *)
@@ -20,20 +21,20 @@ CONSTANTS MaxArgs, MaxPats, Emit
 Cand == { <<"x.txt">>, <<"c">>, <<"a", "x.txt">>, <<"a", "y.go">>, <<"a", "b", "z.txt">>, <<"a", "c", "w.txt">> }
 ArgsC == { <<>>, <<"a">>, <<"x.txt">>, <<"a", "b">>, <<"c">>, <<"a", "c">> }         \* <<>> is "."
 (* the expressions, with what they match completely *)
-Pats == {"", "c", "a", ".*\\.go", ".*/a/.*", "(b|x\\.txt)"}
+Pats == {"", "c", "a", ".*\\.go", ".*/RVS/a/.*", "(b|x\\.txt)"}
 EndsGo(n) == n = "y.go"
 NameMatch(pat, n) == CASE pat = "" -> FALSE
                        [] pat = "c" -> n = "c"
                        [] pat = "a" -> n = "a"
                        [] pat = ".*\\.go" -> EndsGo(n)
-                       [] pat = ".*/a/.*" -> FALSE                       \* a base name holds no separator
+                       [] pat = ".*/RVS/a/.*" -> FALSE                       \* a base name holds no separator
                        [] pat = "(b|x\\.txt)" -> n \in {"b", "x.txt"}
 (* a file is matched by its absolute path /.../R/<path> *)
 PathMatch(pat, path) == CASE pat = "" -> FALSE
                           [] pat = "c" -> FALSE                           \* an absolute path is never just "c"
                           [] pat = "a" -> FALSE
                           [] pat = ".*\\.go" -> EndsGo(path[Len(path)])
-                          [] pat = ".*/a/.*" -> Len(path) >= 2 /\ path[1] = "a"
+                          [] pat = ".*/RVS/a/.*" -> Len(path) >= 2 /\ path[1] = "a"
                           [] pat = "(b|x\\.txt)" -> FALSE
 IgnDir(ps, n)     == \E p \in ps : NameMatch(p, n)
 IgnFile(ps, path) == \E p \in ps : PathMatch(p, path)
